@@ -513,12 +513,25 @@ func makeClassesReady(p *slip.Package) {
 	}
 }
 
+// classChanged re-merges the classes that name cc as a direct superclass and
+// then, recursively, their subclasses so that a class is never merged from a
+// superclass that has not been re-merged yet. The direct superclass names are
+// used instead of the inherit list since that list is what is out of date.
 func classChanged(cc slip.Class, p *slip.Package) {
 	for _, c := range p.AllClasses() {
-		if c.Inherits(cc) {
-			if sc, ok := c.(isStandardClass); ok {
-				sc.mergeSupers()
-			}
+		if sc, ok := c.(isStandardClass); ok && sc.namesSuper(cc.Name()) {
+			sc.mergeSupers()
+			classChanged(c, p)
 		}
 	}
+}
+
+// namesSuper returns true if name is one of the direct superclass names.
+func (c *StandardClass) namesSuper(name string) bool {
+	for _, super := range c.supers {
+		if strings.EqualFold(string(super), name) {
+			return true
+		}
+	}
+	return false
 }
